@@ -26,7 +26,9 @@ from aegmon.refs import wcs_zenithal
 ID = 'C10'
 LEVEL = 'exploration'
 RULE = ('image case = one generated header (5 zenithal projections, CRPIX inside or up to 1.5 image sizes outside, CDELT '
-        'of both signs, shapes 1x1..200x150, float32/float64, a few pre-existing NaN/inf pixels) and one region (circle, '
+        'of both signs, shapes 1x1..200x150, float32/float64, a few pre-existing NaN/inf pixels; plus images whose '
+        'pixel grid partly has no sky position (all-sky AIT/MOL, SIN/ZEA/ARC wider than the map, CRPIX off-image) and '
+        'images with more than 2**22 (thorough: 2**24) pixels per plane through mask_file / the command line) and one region (circle, '
         'several circles, convex polygon, empty, whole sky) whose HEALPix cells are 0.2..5 image pixels wide, masked '
         'with negate False and True through mask_plane, mask_file (2-D, 3-D, 4-D with degenerate axes) or the MIMAS '
         'command line; files are float32/float64 or scaled integers (BITPIX 8/16/32 with BSCALE/BZERO, with and '
@@ -46,14 +48,20 @@ ASSUMPTIONS = ['oracle WCS: FITS paper II zenithal projections implemented geome
                'BZERO=2**(n-1) convention) cannot hold NaN - the unchanged mask_file raises ValueError on them; a plain '
                'integer image with only a BLANK card comes back from the unchanged mask_file as BITPIX 16 without '
                'NaN; neither layout is in the workload',
-               'domain: every pixel of the image has a sky position (field radius about CRVAL <= 40 deg), float data, '
+               'pixels without a sky position (independent classification from the projection geometry, checked '
+               'against astropy NaNs; 1e-6 band at the edge of the map undetermined): only what the statement says is '
+               'demanded of them - blanked in exactly one of the two negate senses, value unchanged when not blanked; '
+               'the unchanged code blanks them with negate=False and keeps them with negate=True',
+               'AIT/MOL oracle: closed-form deprojection (FITS paper II) for CRVAL2 = 0, checked per header against astropy',
+               'domain (all other cases): every pixel of the image has a sky position (field radius about CRVAL <= 40 deg), float data, '
                '|table dec| <= 90']
 MIN_REACH = {'MIMAS:mask_plane': 1, 'MIMAS:mask_file': 1, 'MIMAS:mask_table': 1, 'MIMAS:mask_catalog': 1,
              'regions:Region.sky_within': 1}
 MIN_COUNTERS = {'pixels_judged': 200000, 'pixels_expected_blank': 20000, 'pixels_expected_kept': 20000,
                 'images_with_boundary': 40, 'cube_planes_compared': 10, 'rows_judged': 20000,
                 'rows_expected_removed': 2000, 'rows_expected_kept': 2000, 'rows_nonfinite': 200,
-                'empty_tables': 4, 'catalog_files': 10, 'integer_stored_files': 20, 'cli_runs': 2, 'complementarity_pixels': 200000}
+                'empty_tables': 4, 'catalog_files': 10, 'integer_stored_files': 20, 'images_with_off_sky_pixels': 40, 'pixels_off_sky': 20000,
+                'complementarity_off_sky_pixels': 20000, 'big_plane_images': 3, 'cli_runs': 2, 'complementarity_pixels': 200000}
 
 EPS = 1e-7          # degrees, undetermined band around a cell edge (DESIGN section 1 rule 2, section 5 C10)
 
@@ -97,6 +105,68 @@ def _image_geometry(rng, shape=None, ratio=None):
         return {'proj': str(rng.choice(PROJECTIONS)), 'crval': crval, 'crpix': crpix,
                 'cdelt': (s1 * cd, s2 * cd * asp), 'shape': shp, 'use_cd': bool(rng.random() < 0.3),
                 'depth': depth, 'ratio': rat}
+
+
+_LIMIT_DEG = {'SIN': math.degrees(1.0), 'ZEA': math.degrees(2.0), 'ARC': 180.0}
+
+
+def _wide_case(rng, kind, seedtag):
+    """an image whose pixel grid partly falls off the projection (all-sky AIT / MOL, SIN / ZEA / ARC wider than
+    the map), with a region centred on a pixel that does have a sky position"""
+    while True:
+        proj = str(rng.choice(['AIT', 'MOL', 'SIN', 'ZEA', 'ARC']))
+        shp = (int(rng.integers(12, 110)), int(rng.integers(12, 150)))
+        if proj in WIDE:
+            cd = 360.0 / shp[1] * rng.uniform(0.8, 1.4)
+            crval = (float(rng.choice([rng.uniform(0, 360), 0.0, 180.0])), 0.0)
+        else:
+            cd = _LIMIT_DEG[proj] * rng.uniform(0.7, 1.7) / (min(shp) / 2.0)
+            crval = (float(rng.uniform(0, 360)), float(rng.choice([rng.uniform(-85, 85), 0.0, 85.0, -60.0])))
+        if rng.random() < 0.3:
+            crpix = (float(rng.uniform(-0.8, 1.8) * shp[1]), float(rng.uniform(-0.8, 1.8) * shp[0]))
+        else:
+            crpix = (float(shp[1] * rng.uniform(0.3, 0.7)), float(shp[0] * rng.uniform(0.3, 0.7)))
+        if rng.random() < 0.3:
+            crpix = (float(round(crpix[0])), float(round(crpix[1])))
+        ratio = float(10 ** rng.uniform(math.log10(0.3), math.log10(3)))
+        depth = int(np.clip(round(math.log2(resol_deg(0) / (cd * ratio))), 3, 9))
+        ratio = resol_deg(depth) / cd
+        if not 0.2 <= ratio <= 5:
+            continue
+        s1 = -1 if rng.random() < 0.7 else 1
+        s2 = 1 if rng.random() < 0.8 else -1
+        geom = {'proj': proj, 'crval': crval, 'crpix': crpix, 'cdelt': (s1 * cd, s2 * cd), 'shape': shp,
+                'use_cd': bool(rng.random() < 0.3), 'depth': depth, 'ratio': ratio}
+        g = GridWCS(geom)
+        I, J = np.meshgrid(np.arange(shp[0]), np.arange(shp[1]), indexing='ij')
+        off, limb = g.classify(I, J)
+        on = ~off & ~limb
+        if on.mean() < 0.15 or off.sum() < 5:
+            continue
+        cand = np.argwhere(on)
+        rmax = min(0.35 * min(shp), 120 * ratio, 50.0 / cd)
+        rk = str(rng.choice(['circle', 'circle', 'circles', 'poly']))
+        c = cand[rng.integers(0, len(cand))]
+        spec = {'kind': rk, 'centre_index': (float(c[0]), float(c[1])),
+                'radius_px': float(max(rng.uniform(0.08, 0.35) * min(shp), 1.2 * ratio, 1.0) if rmax > 1 else 1.0)}
+        spec['radius_px'] = float(min(spec['radius_px'], max(rmax, 1.0)))
+        if rk == 'circles':
+            m = int(rng.integers(2, 5))
+            cc = cand[rng.integers(0, len(cand), m)]
+            spec['centres_index'] = [(float(a), float(b)) for a, b in cc]
+            spec['radii_px'] = [float(min(max(rng.uniform(0.05, 0.25) * min(shp), ratio, 0.7), max(rmax, 1.0)))
+                                for _ in range(m)]
+        if rk == 'poly':
+            nv = int(rng.integers(3, 9))
+            while True:
+                a = np.sort(rng.uniform(0, 360, nv))
+                if np.diff(np.concatenate([a, [a[0] + 360]])).min() >= 8:
+                    break
+            spec['angles'] = [float(x) for x in a]
+        case = {'kind': kind, 'geom': geom, 'region': spec, 'dtype': str(rng.choice(['f4', 'f8'])), 'seed': seedtag}
+        if kind == 'file':
+            case.update(dims=str(rng.choice(['2d', '3d', '4d_1n', '4d_11'])), cli=bool(rng.random() < 0.25))
+        return case
 
 
 def _region_spec(rng, geom, kind=None):
@@ -166,6 +236,40 @@ def cases(seed, tier):
                             'region': {'kind': 'circle', 'centre_index': (9.0, 12.0), 'radius_px': 6.0},
                             'dtype': 'f4', 'dims': dims, 'cli': cli, 'store': store, 'blank': blank,
                             'seed': ['t', 'intfile', store, blank, dims]})
+    # images whose pixel grid partly has no sky position: all-sky AIT / MOL, zenithal maps wider than the projection
+    k = 0
+    for proj, shape, cd, crval, crpix, depth in (
+            ('AIT', (36, 72), 5.0, (0.0, 0.0), (36.5, 18.5), 5), ('AIT', (72, 144), 2.5, (180.0, 0.0), (72.5, 36.5), 6),
+            ('AIT', (40, 90), 4.5, (123.4, 0.0), (40.0, 22.0), 5), ('MOL', (36, 72), 5.0, (0.0, 0.0), (36.5, 18.5), 5),
+            ('MOL', (80, 170), 2.2, (266.4, 0.0), (80.0, 41.0), 6), ('SIN', (100, 100), 1.5, (45.0, -30.0), (50.5, 50.5), 6),
+            ('SIN', (60, 60), 1.0, (200.0, 50.0), (-20.0, 30.0), 7), ('ZEA', (120, 110), 2.2, (10.0, 70.0), (55.0, 60.0), 5),
+            ('ARC', (100, 90), 4.5, (300.0, -10.0), (45.5, 50.5), 4)):
+        geom = {'proj': proj, 'crval': crval, 'crpix': crpix, 'cdelt': (-cd, cd), 'shape': shape, 'use_cd': bool(k % 2),
+                'depth': depth, 'ratio': resol_deg(depth) / cd}
+        ci = (crpix[1] - 1 + (3 if proj != 'SIN' or crpix[0] > 0 else 0), max(crpix[0] - 1, 0.0) + 4)
+        spec = {'kind': 'circles' if k % 3 == 0 else 'circle', 'centre_index': ci, 'radius_px': 0.22 * min(shape),
+                'centres_index': [ci, (shape[0] * 0.5, shape[1] * 0.3)], 'radii_px': [0.2 * min(shape), 0.1 * min(shape)]}
+        out.append({'kind': 'plane', 'geom': geom, 'region': spec, 'dtype': 'f8' if k % 2 else 'f4',
+                    'seed': ['t', 'wide', k]})
+        out.append({'kind': 'file', 'geom': geom, 'region': spec, 'dtype': 'f4', 'dims': ('2d', '3d', '4d_1n')[k % 3],
+                    'cli': bool(k % 2), 'seed': ['t', 'widefile', k]})
+        k += 1
+    # big images through mask_file / the command line: more than 2**22 pixels per plane
+    big = [((2100, 2048), '2d', False, 'f4', 'SIN'), ((1030, 4100), '2d', True, 'f4', 'TAN'),
+           ((4100, 1030), '2d', False, 'f8', 'ZEA')]
+    if tier == 'thorough':
+        big += [((4200, 4000), '2d', False, 'f4', 'SIN'), ((2050, 2100), '4d_n1', True, 'f4', 'ARC'),
+                ((2500, 1700), '2d', False, 'f4', 'STG')]
+    for i, (shape, dims, cli, dt, proj) in enumerate(big):
+        cd = resol_deg(12) / 2.0
+        geom = {'proj': proj, 'crval': (33.0 + 70 * i, -40.0 + 25 * i), 'crpix': (shape[1] / 2.0, shape[0] / 2.0 + 0.5),
+                'cdelt': (-cd, cd), 'shape': shape, 'use_cd': False, 'depth': 12, 'ratio': 2.0}
+        # the region straddles the last rows and the last columns, where a lost block would show
+        spec = {'kind': 'circles', 'centre_index': (shape[0] - 150.0, shape[1] * 0.4), 'radius_px': 400.0,
+                'centres_index': [(shape[0] - 150.0, shape[1] * 0.4), (shape[0] * 0.3, shape[1] - 100.0), (60.0, 80.0)],
+                'radii_px': [400.0, 300.0, 200.0]}
+        out.append({'kind': 'file', 'geom': geom, 'region': spec, 'dtype': dt, 'dims': dims, 'cli': cli,
+                    'seed': ['t', 'big', i]})
     # cubes whose planes are one pixel high / wide (a celestial axis of length 1 must survive)
     thin = dict(base, depth=12, ratio=resol_deg(12) / 0.02)
     for i, (shape, dims) in enumerate((((1, 7), '3d'), ((1, 7), '4d_11'), ((6, 1), '3d'), ((6, 1), '4d_1n'),
@@ -196,6 +300,9 @@ def cases(seed, tier):
         g = _image_geometry(rng, shape=shp)
         out.append({'kind': 'file', 'geom': g, 'region': _region_spec(rng, g), 'dtype': str(rng.choice(['f4', 'f8'])),
                     'dims': dims, 'cli': bool(rng.random() < 0.15), 'seed': [seed, 'file', i]})
+    rwide = rng_for(seed, 'c10-wide', tier)
+    for i in range(70 if tier == 'quick' else 1000):
+        out.append(_wide_case(rwide, 'plane' if i % 3 else 'file', [seed, 'wide', i]))
     rint = rng_for(seed, 'c10-integer-files', tier)
     for i in range(100 if tier == 'quick' else 1200):
         dims = str(rint.choice(['2d', '3d', '4d_11', '4d_1n', '4d_n1', '3d_1']))
@@ -252,16 +359,97 @@ def _header(geom, extra_axes=()):
     return h
 
 
+_ZEN_LIMIT = {'SIN': 1.0, 'ZEA': 2.0, 'ARC': math.pi, 'TAN': math.inf, 'STG': math.inf}   # radius of the map, radians
+_LIMB = {'SIN': 1e-6, 'ZEA': 1e-6, 'ARC': 1e-3, 'AIT': 1e-6, 'MOL': 1e-6}                 # undetermined band at the edge
+WIDE = ('AIT', 'MOL')
+
+
+class GridWCS:
+    """numpy index -> sky position, NaN where the pixel has no sky position (beyond the edge of the projection) or
+    lies within a thin band at that edge (`limb`, undetermined).  Zenithal projections: refs/wcs_zenithal.py plus the
+    radius of the map;  AIT and MOL (all-sky, CRVAL2 = 0 only, where native and celestial poles coincide):
+    the closed-form deprojections of FITS paper II written out here.  Checked per header against astropy."""
+
+    def __init__(self, geom):
+        self.geom = geom
+        self.proj = geom['proj']
+        self.crpix = geom['crpix']
+        self.cdelt = geom['cdelt']
+        self.crval = geom['crval']
+        if self.proj in WIDE:
+            if self.crval[1] != 0.0:
+                raise ValueError('AIT/MOL oracle supports CRVAL2 = 0 only')
+            self.z = None
+        else:
+            self.z = ZenithalWCS(_header(geom))
+
+    def _xy(self, i, j):
+        x = self.cdelt[0] * (np.asarray(j, dtype=float) + 1 - self.crpix[0])
+        y = self.cdelt[1] * (np.asarray(i, dtype=float) + 1 - self.crpix[1])
+        return np.radians(x), np.radians(y)
+
+    def classify(self, i, j):
+        """(offsky, limb) boolean arrays"""
+        X, Y = self._xy(i, j)
+        if self.proj in _ZEN_LIMIT:
+            lim = _ZEN_LIMIT[self.proj]
+            if not np.isfinite(lim):
+                z = np.zeros(np.shape(X), dtype=bool)
+                return z, z.copy()
+            t = np.hypot(X, Y) / lim
+        elif self.proj == 'AIT':
+            t = np.sqrt(((X / 4) ** 2 + (Y / 2) ** 2) / 0.5)
+        else:  # MOL: ellipse with semi-axes 2 sqrt2 and sqrt2
+            t = np.sqrt((X / (2 * math.sqrt(2))) ** 2 + (Y / math.sqrt(2)) ** 2)
+        band = _LIMB[self.proj]
+        limb = np.abs(t - 1) <= band
+        return (t > 1) & ~limb, limb
+
+    def index2sky(self, i, j):
+        i = np.asarray(i, dtype=float)
+        j = np.asarray(j, dtype=float)
+        off, limb = self.classify(i, j)
+        bad = off | limb
+        with np.errstate(all='ignore'):
+            if self.z is not None:
+                ra, dec = self.z.index2sky(i, j)
+            else:
+                X, Y = self._xy(i, j)
+                if self.proj == 'AIT':
+                    Z = np.sqrt(np.clip(1 - (X / 4) ** 2 - (Y / 2) ** 2, 0.5, None))
+                    phi = 2 * np.arctan2(Z * X / 2, 2 * Z * Z - 1)
+                    theta = np.arcsin(np.clip(Y * Z, -1, 1))
+                else:
+                    u = np.sqrt(np.clip(2 - Y * Y, 1e-30, None))
+                    phi = math.pi * X / (2 * u)
+                    theta = np.arcsin(np.clip(np.arcsin(np.clip(Y / math.sqrt(2), -1, 1)) / (math.pi / 2)
+                                              + Y * u / math.pi, -1, 1))
+                ra = (self.crval[0] + np.degrees(phi)) % 360.0
+                dec = np.degrees(theta)
+        ra = np.where(bad, np.nan, ra)
+        dec = np.where(bad, np.nan, dec)
+        return ra, dec
+
+
 def _crosscheck_wcs(z, w, shape, rng):
-    """the independent WCS against astropy at origin 0 (numpy indices): oracle fault if they differ"""
+    """the independent positions against astropy at origin 0 (numpy indices), and the independent "has no sky
+    position" classification against astropy's NaNs: oracle fault if they differ (pixels in the limb band excepted)"""
     ny, nx = shape
-    ii = np.concatenate([[0, 0, ny - 1, ny - 1], rng.integers(0, ny, 60)]).astype(float)
-    jj = np.concatenate([[0, nx - 1, 0, nx - 1], rng.integers(0, nx, 60)]).astype(float)
-    sky = w.wcs_pix2world(np.column_stack([jj, ii]), 0)
+    n = 60 if ny * nx < 500000 else 2000
+    ii = np.concatenate([[0, 0, ny - 1, ny - 1, ny // 2], rng.integers(0, ny, n)]).astype(float)
+    jj = np.concatenate([[0, nx - 1, 0, nx - 1, nx // 2], rng.integers(0, nx, n)]).astype(float)
+    with warnings.catch_warnings():
+        warnings.simplefilter('ignore')
+        sky = w.wcs_pix2world(np.column_stack([jj, ii]), 0)
     ra, dec = z.index2sky(ii, jj)
-    if not (np.isfinite(sky).all() and np.isfinite(ra).all()):
-        raise RuntimeError('oracle fault: generated image has pixels without a sky position')
-    d = float(np.max(sphere.sep(sky[:, 0], sky[:, 1], ra, dec)))
+    off, limb = z.classify(ii, jj)
+    afin = np.isfinite(sky).all(axis=1)
+    if (afin & off).any() or (~afin & ~off & ~limb).any():
+        raise RuntimeError('oracle fault: independent off-sky classification and astropy disagree')
+    on = ~off & ~limb
+    if not on.any():
+        return 0.0
+    d = float(np.max(sphere.sep(sky[on, 0], sky[on, 1], ra[on], dec[on])))
     if not d < 1e-9:
         raise RuntimeError('oracle fault: independent WCS and astropy (origin 0) differ by %g deg' % d)
     return d
@@ -283,6 +471,8 @@ def _build_region(o, Region, geom, spec, z):
         return (reg if ok else None), desc
     if kind in ('circle', 'poly'):
         ra0, dec0 = z.index2sky(*spec['centre_index'])
+        if not (np.isfinite(ra0) and np.isfinite(dec0)):
+            raise RuntimeError('harness: region centre has no sky position')
         r = spec['radius_px'] * px
         desc.update(centre_deg=[float(ra0), float(dec0)], radius_deg=r)
         if kind == 'circle':
@@ -294,6 +484,10 @@ def _build_region(o, Region, geom, spec, z):
         return (reg if ok else None), desc
     if kind == 'circles':
         cs = [z.index2sky(*c) for c in spec['centres_index']]
+        cs = [c for c in cs if np.isfinite(c[0]) and np.isfinite(c[1])]
+        if not cs:
+            raise RuntimeError('harness: no region centre has a sky position')
+        spec = dict(spec, radii_px=spec['radii_px'][:len(cs)])
         ras = [math.radians(float(c[0])) for c in cs]
         decs = [math.radians(float(c[1])) for c in cs]
         rs = [math.radians(r * px) for r in spec['radii_px']]
@@ -363,7 +557,7 @@ class ImageOracle:
         from astropy.wcs import WCS
         self.geom = geom
         self.header = _header(geom)
-        self.z = ZenithalWCS(self.header)
+        self.z = GridWCS(geom)
         with warnings.catch_warnings():
             warnings.simplefilter('ignore')
             self.w = WCS(self.header, naxis=2)
@@ -371,6 +565,7 @@ class ImageOracle:
         ny, nx = geom['shape']
         I, J = np.meshgrid(np.arange(ny), np.arange(nx), indexing='ij')
         self.ra, self.dec = self.z.index2sky(I, J)
+        self.offsky, self.limb = self.z.classify(I, J)
         self.depth = reg.maxdepth
         self.iv = healmember.intervals(reg.pixeldict, reg.maxdepth)
         c0, st = healmember.stable_cell(self.ra.ravel(), self.dec.ravel(), self.depth, EPS)
@@ -383,7 +578,9 @@ class ImageOracle:
         ny, nx = self.geom['shape']
         I, J = np.meshgrid(np.arange(ny) + di, np.arange(nx) + dj, indexing='ij')
         ra, dec = self.z.index2sky(I, J)
-        return healmember.member(self.iv, healmember.cell(ra.ravel(), dec.ravel(), self.depth)).reshape(ny, nx)
+        fin = np.isfinite(ra) & np.isfinite(dec)
+        c = healmember.cell(np.where(fin, ra, 0.0).ravel(), np.where(fin, dec, 0.0).ravel(), self.depth)
+        return healmember.member(self.iv, c).reshape(ny, nx) & fin
 
 
 def _diagnose(orc, blanked, negate, judged):
@@ -420,7 +617,7 @@ def _judge_plane(o, orc, before, after, negate, tag, desc):
     expected_blank = orc.inside if negate else ~orc.inside
     judged = orc.stable & ~was_nan
     o.count('pixels_judged', int(judged.sum()))
-    o.count('pixels_undetermined', int((~orc.stable).sum()))
+    o.count('pixels_undetermined', int((~orc.stable & ~orc.offsky).sum()))
     o.count('pixels_preexisting_nan', int(was_nan.sum()))
     o.count('pixels_expected_blank', int((judged & expected_blank).sum()))
     o.count('pixels_expected_kept', int((judged & ~expected_blank).sum()))
@@ -428,7 +625,7 @@ def _judge_plane(o, orc, before, after, negate, tag, desc):
     wrong = judged & (blanked != expected_blank)
     nwrong = int(wrong.sum())
     if nwrong:
-        hits = _diagnose(orc, blanked, negate, judged)
+        hits = _diagnose(orc, blanked, negate, judged) if blanked.size <= 2 ** 21 else []
         for (i, j) in np.argwhere(wrong)[:3]:
             o.violate('pixel_blanked_but_should_be_kept' if blanked[i, j] else 'pixel_kept_but_should_be_blanked', {
                 'via': tag, 'negate': negate, 'index': [int(i), int(j)],
@@ -443,12 +640,18 @@ def _hdr_summary(g):
     return {k: g[k] for k in ('proj', 'crval', 'crpix', 'cdelt', 'shape', 'use_cd', 'depth')}
 
 
-def _complementary(o, b0, b1, valid, tag):
-    """negate False / True must blank complementary pixel sets (judged on every pixel that was not NaN before)"""
+def _complementary(o, b0, b1, valid, tag, offsky=None):
+    """negate False / True must blank complementary pixel sets (judged on every pixel that was not NaN before,
+    including pixels that have no sky position: whichever sense blanks them, exactly one of the two must)"""
     o.count('complementarity_pixels', int(valid.sum()))
+    if offsky is not None:
+        o.count('complementarity_off_sky_pixels', int((valid & offsky).sum()))
+        o.count('off_sky_blanked_by_negate_false', int((valid & offsky & b0).sum()))
+        o.count('off_sky_blanked_by_negate_true', int((valid & offsky & b1).sum()))
     bad = valid & ~(b0 ^ b1)
     for (i, j) in np.argwhere(bad)[:3]:
-        o.violate('negate_not_complementary', {'via': tag, 'index': [int(i), int(j)],
+        o.violate('negate_not_complementary', {'via': tag, 'index': [int(i), int(j)], 'n_pixels': int(bad.sum()),
+                                               'pixel_has_sky_position': None if offsky is None else bool(~offsky[i, j]),
                                                'blanked_negate_false': bool(b0[i, j]), 'blanked_negate_true': bool(b1[i, j])})
 
 
@@ -478,7 +681,7 @@ def run(case):
 def _prepare_image(o, case, rng):
     from AegeanTools.regions import Region
     geom = case['geom']
-    z = ZenithalWCS(_header(geom))
+    z = GridWCS(geom)
     reg, desc = _build_region(o, Region, geom, case['region'], z)
     if reg is None:
         return None
@@ -491,7 +694,16 @@ def _prepare_image(o, case, rng):
     o.worst('wcs_oracle_vs_astropy_deg', orc.wcs_agreement)
     o.worst('cell_width_px_max', geom['ratio'])
     o.worst('cell_width_px_neg_min', -geom['ratio'])
-    o.worst('undetermined_fraction', float((~orc.stable).mean()))
+    onsky = ~orc.offsky
+    o.worst('undetermined_fraction', float((~orc.stable & onsky).sum() / max(1, onsky.sum())))
+    if orc.offsky.any():
+        o.count('images_with_off_sky_pixels')
+        o.see('projection_with_off_sky_pixels', geom['proj'])
+    o.count('pixels_off_sky', int(orc.offsky.sum()))
+    o.count('pixels_limb_undetermined', int(orc.limb.sum()))
+    if ny * nx > 2 ** 22:
+        o.count('big_plane_images')
+        o.worst('pixels_per_plane', ny * nx)
     j = orc.stable
     if (orc.inside & j).any() and (~orc.inside & j).any():
         o.count('images_with_boundary')
@@ -527,7 +739,7 @@ def _run_plane(o, case, rng):
             o.violate('returned_array_differs_from_inplace', {'negate': negate})
         blank[negate] = _judge_plane(o, orc, data, ret, negate, 'mask_plane', desc)
     if len(blank) == 2:
-        _complementary(o, blank[False], blank[True], ~np.isnan(data), 'mask_plane')
+        _complementary(o, blank[False], blank[True], ~np.isnan(data), 'mask_plane', orc.offsky)
     if orc.stable.any() and orc.inside[orc.stable].any() and (~orc.inside[orc.stable]).any():
         o.n_nontrivial += int((orc.stable & ~np.isnan(data)).sum())
     o.sample = {'header': _hdr_summary(geom), 'region': desc, 'region_deepest_pixels': healmember.n_deepest(orc.iv),
@@ -624,7 +836,7 @@ def _run_file(o, case, rng):
                 o.violate('input_file_modified', {'negate': negate})
         if len(blank) == 2:
             for p in range(planes_in.shape[0]):
-                _complementary(o, blank[False][0][p], blank[True][0][p], ~np.isnan(planes_in[p]), 'mask_file')
+                _complementary(o, blank[False][0][p], blank[True][0][p], ~np.isnan(planes_in[p]), 'mask_file', orc.offsky)
         if orc.stable.any() and orc.inside[orc.stable].any() and (~orc.inside[orc.stable]).any():
             o.n_nontrivial += int(orc.stable.sum()) * planes_in.shape[0]
         o.sample = {'header': _hdr_summary(geom), 'dims': case['dims'], 'file_shape': list(full_shape), 'region': desc,
